@@ -1,4 +1,4 @@
-import VncModel.Threads.LockOrder
+import VncModel.Threads.Refs
 import VncModel.Threads.Skeleton
 import VncModel.Gen.C13
 /-!
@@ -32,6 +32,12 @@ What is proved here (every theorem is about every reachable state, i.e. every sc
   owned by the next (no deadlock cycle among mutexes).
 * `waiters_hold_nothing` — a thread blocked in a condition wait or in pthread_join owns no mutex
   (every blocking wait releases its mutex; nobody joins while holding a lock).
+
+* `refCount_is_exact` — the reference count of every client equals the number of counted references
+  held (by the tables `refsOf`) by the application thread, the listener and the client's own output
+  thread: no increment without decrement on any path, no decrement without a reference
+  (`no_bad_decrement`), and `indices_allocated`: every client index a thread works on has been
+  allocated (so the record rfbNewClient creates next is referenced by nobody).
 
 `_partial`: see the end of the file for what is not proved yet.
 -/
@@ -89,5 +95,38 @@ theorem waiters_hold_nothing {s : State} (h : Reach s) (c : Nat) (m : MCls) (c' 
 theorem no_bad_unlock_partial {s : State} (h : Reach s) (t : Tid) (m : MCls) (c : Nat)
     (hheld : mkey m c ∈ heldOf s t) : own s m c = some t :=
   (own_iff_table h t m c).2 hheld
+
+/-- the reference count is exact -/
+theorem refCount_is_exact {s : State} (h : Reach s) (c : Nat) :
+    (s.cl c).refCount = (refsOf s .app).count c + (refsOf s .lis).count c + (refsOf s (.out c)).count c :=
+  refCount_exact h c
+
+/-- a thread that is about to drop a reference (its table lists the client) really holds one -/
+theorem no_bad_decrement {s : State} (h : Reach s) (t : Tid) (c : Nat) (hc : c ∈ refsOf s t) :
+    c ∈ (getG s t).refs :=
+  mem_refs_of_local (local_reach h) hc
+
+/-- every client index in a program counter, in the list of remembered clients, and of every started
+thread is below `n` (allocated) -/
+theorem indices_allocated {s : State} (h : Reach s) :
+    (∀ x ∈ idxC s.apc, x < s.n) ∧ (∀ x ∈ idxC s.lpc, x < s.n) ∧ (∀ x ∈ s.alk, x < s.n) ∧
+    (∀ c, (s.cl c).ipc ≠ .notStarted ∨ (s.cl c).opc ≠ .notStarted → c < s.n) :=
+  let b := bnd_reach h
+  ⟨b.app, b.lis, b.alk, b.thr⟩
+
+/-!
+## Not proved (full-strength statements)
+
+* `no_uaf`: `∀ s, Reach s → s.uaf = false ∧ s.dfree = false`, and every step that frees client `c`
+  (the `unlockS` stage of rfbClientConnectionGone) is taken with `(s.cl c).refCount = 0 ∧ ¬ (s.cl c).linked`.
+  Proved ingredients: `refCount_is_exact`, `owner_is_program_counter` (refCount of c only changes under
+  c's refCountMutex, the list only under rfbClientListMutex), `indices_allocated`.  Missing: the
+  life-cycle invariant (a referenced client is linked, a linked client is allocated, the record is freed
+  by exactly one thread after its output thread was joined).
+* `gone_once`: `∀ s, Reach s → ∀ c, (s.cl c).goneCnt ≤ 1`.
+* `no_deadlock`: `∀ s, Reach s → (∀ t, succ s t = []) → every thread has terminated`.  Proved:
+  `no_lock_cycle`, `waiters_hold_nothing`; missing: every condition wait is eventually signalled.
+* `shutdown_terminates`, `threads_reclaimed`.
+-/
 
 end VncModel.Props.C13
